@@ -43,6 +43,8 @@ Inductive gop :=
 | GFlush                                      (* the environment discharges everything it owes: DialFailure for
                                                  every accepted, unanswered dial; ConnectionClosed for every
                                                  connection; the clock passes every deadline *)
+| GFlushSoft                                  (* the same, but the connections stay: every unanswered open_substream
+                                                 gets a SubstreamOpenFailure instead (silent peers must time out) *)
 | GRespRaw (irid len tag : N) (fb : bool)     (* send_response(_with_feedback) with an arbitrary request id *)
 | GRejRaw (irid : N)                          (* reject_request with an arbitrary request id *)
 | GExit (kind : N).                           (* 0: the user drops the RequestResponseHandle; 1: the transport
@@ -61,7 +63,7 @@ Definition p_op (ccap : N) : parser gop :=
   | 3 => let* p := pN in evs [EClosed p]
   | 4 => let* p := pN in evs [EDialFail p]
   | 5 => let* k := pN in let* g := pN in let* ng := pN in evs [EOpened k g ng]
-  | 6 => let* k := pN in let* u := pBool in evs [EOpenFail k u]
+  | 6 => let* k := pN in let* u := pN in evs [EOpenFail k u]
   | 7 => let* k := pN in evs [EUnblock k]
   | 8 => let* k := pN in evs [EBreakW k]
   | 9 => let* k := pN in let* l := pN in let* t := pN in evs [ERespond k l t]
@@ -104,6 +106,7 @@ Definition p_op (ccap : N) : parser gop :=
   | 28 => let* p := pN in let* v := pN in evs [EMgrPeer p v]
   | 29 => let* b := pBool in evs [EClog b]
   | 30 => pret GFlush
+  | 31 => pret GFlushSoft
   | _ => pfail
   end.
 
@@ -114,6 +117,7 @@ Definition ev_peer_ok (e : ev) : bool :=
   | ESend p _ _ _ fb => (p <? NPEERS) && match fb with Some (fn, _, _) => fn <=? 2 | None => true end
   | EClosed p | EDialFail p | EBreakConn p => p <? NPEERS
   | EMgrPeer p v => (p <? NPEERS) && (v <=? 6)
+  | EOpenFail _ u => u <=? 2
   | _ => true
   end.
 Definition ev_ok (e : ev) : bool :=
@@ -204,6 +208,8 @@ Definition expand (c : cfg) (st : pst * env) (g : ghost) (op : gop) : list ev :=
   match op with
   | GEvs l _ => l
   | GFlush => flush_evs c g
+  | GFlushSoft => map EDialFail (sort_by idN (dedup (g_dials g))) ++
+                  map (fun _ => EOpenFail 0 0) (opens (snd st)) ++ [EAdvance (2 * tmo c + 1)]
   | GRespRaw irid len tag fb =>
     match index_of irid (hpend (snd st)) 0 with Some k => [EURespond k len tag fb] | None => [] end
   | GRejRaw irid =>
@@ -246,7 +252,8 @@ Fixpoint run_trace (c : cfg) (st : pst * env) (g : ghost) (dead : bool) (l : lis
     else
       let '(st1, o, tg, calls, g1) := run_op c st g (expand c st g op) in
       let exits := match op with GExit _ => true | _ => false end in
-      enc_opt tg :: N.of_nat (length (filter printed o) + length calls + length (mark_of op))
+      enc_opt (match op with GFlushSoft => None | _ => tg end)
+                 :: N.of_nat (length (filter printed o) + length calls + length (mark_of op))
                  :: concat (sort_by ekey (map enc_out (filter printed o) ++ calls ++ mark_of op))
                  ++ (if exits then EMPTY_DUMP else dump (fst st1)) ++ run_trace c st1 g1 exits t
   end.
@@ -336,6 +343,55 @@ Definition sent_payloads (es : list ev) (o : list out) : list (N * N * N) :=
   | _ => []
   end.
 
+(* the same with the protocol name each variant goes with: (rid, name (0 = the main protocol), len, tag) *)
+Definition sent_variants (es : list ev) (o : list out) : list (N * N * N * N) :=
+  match find (fun e => match e with ESend _ _ _ _ _ => true | _ => false end) es with
+  | Some (ESend _ _ l t fb) =>
+    flat_map (fun r => (r, 0, l, canon_tag l t) ::
+                       match fb with Some (fn, fl, ft) => [(r, fn, fl, canon_tag fl ft)] | None => [] end) (sent_ids o)
+  | _ => []
+  end.
+(* the request that must go out for rid on a substream negotiated with name neg *)
+Definition expected_request (spn : list (N * N * N * N)) (rid neg : N) : option (N * N) :=
+  match find (fun x => (fst (fst (fst x)) =? rid) && negb (neg =? 0) && (snd (fst (fst x)) =? neg)) spn with
+  | Some x => Some (snd (fst x), snd x)
+  | None =>
+    match find (fun x => (fst (fst (fst x)) =? rid) && (snd (fst (fst x)) =? 0)) spn with
+    | Some x => Some (snd (fst x), snd x)
+    | None => None
+    end
+  end.
+
+(* what the oracle remembers about carriers: binds (carrier, request id, negotiated name) for the
+   outbound ones, inreqs (carrier, inbound request id) for the inbound ones that delivered a
+   request, supplied (inbound request id, len, tag) for the responses the user handed in *)
+Record carriers := mkCar { k_binds : list (N * N * N); k_inreqs : list (N * N); k_supplied : list (N * N * N) }.
+
+(* every frame that reached the remote end is the right one: on an outbound carrier the request
+   given to send_request for the id the carrier was handed to (its fallback variant iff the
+   substream was negotiated with that fallback name); on an inbound carrier the response the user
+   supplied for the request that arrived on it *)
+Definition frames_ok (spn : list (N * N * N * N)) (k : carriers) (o : list out) : bool :=
+  forallb (fun x => match x with
+                    | OWire c l t =>
+                      match find (fun b => fst (fst b) =? c) (k_binds k) with
+                      | Some b =>
+                        match expected_request spn (snd (fst b)) (snd b) with
+                        | Some (el, et) => (l =? el) && (t =? et)
+                        | None => false
+                        end
+                      | None =>
+                        match find (fun b => fst b =? c) (k_inreqs k) with
+                        | Some b =>
+                          match find (fun r => fst (fst r) =? snd b) (k_supplied k) with
+                          | Some r => (l =? snd (fst r)) && (t =? snd r)
+                          | None => false
+                          end
+                        | None => false
+                        end
+                      end
+                    | _ => true end) o.
+
 Definition wire_seen (c len tag : N) (hist : list out) : bool :=
   existsb (fun x => match x with OWire c' l t => (c' =? c) && (l =? len) && (t =? tag) | _ => false end) hist.
 
@@ -345,11 +401,11 @@ Definition wire_seen (c len tag : N) (hist : list out) : bool :=
    of a carrier to a request (the request id that pending_outbound held for the substream id, read
    from the loop's own bookkeeping before the stimulus; the carrier is the next fresh one).
    The events of a stimulus are applied in a row; what was observed is attributed to the last. *)
-Fixpoint gstep_op (c : cfg) (es : list ev) (o : list out) (tg : option N) (g : ghost) : ghost :=
+Fixpoint gstep_op (c : cfg) (es : list (ev * option N)) (o : list out) (g : ghost) : ghost :=
   match es with
   | [] => gstep c EDrain o None g
-  | [e] => gstep c e o tg g
-  | e :: t => gstep_op c t o tg (gstep c e [] None g)
+  | [(e, tg)] => gstep c e o tg g
+  | (e, tg) :: t => gstep_op c t o (gstep c e [] tg g)
   end.
 
 (* the events of a stimulus as far as the oracle needs them (indices into the user's pending
@@ -358,9 +414,24 @@ Definition oexpand (c : cfg) (g : ghost) (op : gop) : list ev :=
   match op with
   | GEvs l _ => l
   | GFlush => flush_evs c g
+  | GFlushSoft => map EDialFail (sort_by idN (dedup (g_dials g))) ++
+                  map (fun _ => EOpenFail 0 0) (g_opens g) ++ [EAdvance (2 * tmo c + 1)]
   | GRespRaw _ len tag fb => [EURespond 0 len tag fb]
   | GRejRaw _ => [EUReject 0]
   | GExit _ => []
+  end.
+
+(* the events with the targets they resolve to, as far as the ledger needs them: the single event
+   of a stimulus has the observed target; the SubstreamOpenFailures of a soft flush answer the
+   opens of the ledger one by one *)
+Definition otargets (g : ghost) (op : gop) (es : list ev) (tg : option N) : list (ev * option N) :=
+  match op, es with
+  | GFlushSoft, _ =>
+    map (fun p => (EDialFail p, None)) (sort_by idN (dedup (g_dials g))) ++
+    map (fun x => (EOpenFail 0 0, Some (fst x))) (g_opens g) ++
+    match rev es with e :: _ => [(e, None)] | [] => [] end
+  | _, [e] => [(e, tg)]
+  | _, _ => map (fun e => (e, None)) es
   end.
 
 Definition ghost_outs (es : list ev) (s : ostep) (prev : dsum) (nch : N) : list out :=
@@ -392,21 +463,35 @@ Definition discharged_b (g : ghost) : bool :=
    Returns the verdict on the steps and the final ledger. *)
 Fixpoint steps_ok (c : cfg) (ops : list gop) (tr : list ostep)
          (hist : list out) (sp : list (N * N * N)) (used : list N)
-         (g : ghost) (prev : dsum) (nch : N) (dead : bool) (cancels : list N) : bool * ghost * list N :=
+         (g : ghost) (prev : dsum) (nch : N) (dead : bool) (cancels : list N)
+         (spn : list (N * N * N * N)) (k : carriers) : bool * ghost * list N :=
   match ops, tr with
   | [], [] => (true, g, cancels)
   | op :: ops', s :: tr' =>
     if dead then
       (* nothing happens once the event loop has ended *)
-      let '(b, g', cs) := steps_ok c ops' tr' hist sp used g prev nch true cancels in
+      let '(b, g', cs) := steps_ok c ops' tr' hist sp used g prev nch true cancels spn k in
       (match o_evs s with [] => b | _ => false end, g', cs)
     else
     let mi := max_inb c in
     let es := oexpand c g op in
     let o := o_outs s in
     let sp' := sp ++ sent_payloads es o in
-    let g' := gstep_op c es (ghost_outs es s prev nch) (o_target s) g in
+    let g' := gstep_op c (otargets g op es (o_target s)) (ghost_outs es s prev nch) g in
+    let spn' := spn ++ sent_variants es o in
+    let k' := mkCar
+      (k_binds k ++ match es with
+                    | [EOpened _ _ neg] =>
+                      flat_map (fun x => match x with OBind ch rid => [(ch, rid, neg)] | _ => [] end) (ghost_outs es s prev nch)
+                    | _ => [] end)
+      (k_inreqs k ++ match reqs o, o_target s with (irid, _, _) :: _, Some ch => [(ch, irid)] | _, _ => [] end)
+      (k_supplied k ++ match o_target s with
+                       | Some irid => flat_map (fun e => match e with
+                                                         | EURespond _ l t _ => [(irid, l, canon_tag l t)]
+                                                         | _ => [] end) es
+                       | None => [] end) in
     let ok :=
+    frames_ok spn' k' o &&
     (* ledger (Proofs.inv_cov, proved for the model; re-checked here on the real bookkeeping): a
        request that is active at a peer has a substream being opened or a future in flight, so
        "nothing outstanding" implies "nothing owed" *)
@@ -463,7 +548,7 @@ Fixpoint steps_ok (c : cfg) (ops : list gop) (tr : list ostep)
         steps_ok c ops' tr' (hist ++ o) sp'
                  (match reqs o, o_target s with _ :: _, Some ch => ch :: used | _, _ => used end)
                  g' (o_dump s) (nch + new_chans es s) exits
-                 (cancels ++ flat_map (fun e => match e with ECancel r => [r] | _ => [] end) es) in
+                 (cancels ++ flat_map (fun e => match e with ECancel r => [r] | _ => [] end) es) spn' k' in
     (ok && b, gf, cs)
   | _, _ => (false, g, cancels)
   end.
@@ -482,7 +567,7 @@ Definition prop_ok (case trace : list N) : bool :=
     match pall (p_steps (length ops)) body with
     | Some tr =>
       let all := flat_map o_outs tr in
-      let '(ok, gf, cancels) := steps_ok c ops tr [] [] [] g0 d0 0 false [] in
+      let '(ok, gf, cancels) := steps_ok c ops tr [] [] [] g0 d0 0 false [] [] (mkCar [] [] []) in
       let answered := forallb (fun r => memN r (term_ids all) || memN r cancels) (sent_ids all) in
       (* at most one terminal event per request id *)
       nodup_b (term_ids all) && ok &&
